@@ -475,16 +475,16 @@ def run(ctx: vlib.Ctx):
         from harness.props import c14_coq
         c14_coq.theorems(ctx)
         cases = []
-        oracle_histories(ctx, ctx.budget(120, 1800), keep_cases=cases)
-        oracle_histories(ctx, ctx.budget(40, 500), keep_cases=cases, focus="spec")
-        oracle_histories(ctx, ctx.budget(40, 500), keep_cases=cases, focus="kwargs")
+        oracle_histories(ctx, ctx.budget(120, 1500), keep_cases=cases)
+        oracle_histories(ctx, ctx.budget(40, 400), keep_cases=cases, focus="spec")
+        oracle_histories(ctx, ctx.budget(40, 400), keep_cases=cases, focus="kwargs")
         tie_ok = c14_coq.correspondence(ctx, cases)
         if not tie_ok or ctx.unshown:
             # a broken obligation / tie: search harder where the disagreement lives
             oracle_histories(ctx, ctx.budget(150, 600), focus="spec")
             oracle_histories(ctx, ctx.budget(100, 400), focus="kwargs")
         oracle_scenarios(ctx)
-        oracle_threads(ctx, ctx.budget(20, 200), ctx.budget(6, 12))
+        oracle_threads(ctx, ctx.budget(20, 150), ctx.budget(6, 12))
     finally:
         sys.setrecursionlimit(old)
     ctx.trusted += [
